@@ -41,6 +41,9 @@ let parse_block (items : string list) : diff =
         let a = z_of_hex a in
         let cur = try List.assoc a !sto with Not_found -> [] in
         sto := (List.remove_assoc a !sto) @ [(a, cur @ [(z_of_hex k, z_of_hex v)])]
+    | ["ste"; a] ->   (* a per-contract storage entry without slots *)
+        let a = z_of_hex a in
+        if not (List.mem_assoc a !sto) then sto := !sto @ [(a, [])]
     | ["dec"; c; h] -> dec := !dec @ [(z_of_hex c, z_of_hex h)]
     | ["mig"; c; h] -> mig := !mig @ [(z_of_hex c, z_of_hex h)]
     | _ -> failwith ("block item " ^ it)) items;
